@@ -28,10 +28,10 @@ def hit(line):
 
 def mc_jobs(quick):
     base = {"MaxPkt": 100, "Spaces": "{}", "InjSizes": "{65}", "MaxInj": 1}
-    code = dict(base, Intended="FALSE", PeerMaxes="{0, 66}", Sizes="{0, 65}" if quick else "{0, 64, 65}",
-                MaxSend=2 if quick else 3)
-    intended = dict(base, Intended="TRUE", PeerMaxes="{0, 66}", Sizes="{65, 500}" if quick else "{64, 65, 500}",
-                    MaxSend=2 if quick else 3)
+    code = dict(base, Intended="FALSE", PeerMaxes="{0, 66}", Sizes="{0, 65}" if quick else "{0, 63, 64, 65}",
+                MaxSend=2)
+    intended = dict(base, Intended="TRUE", PeerMaxes="{0, 66}", Sizes="{65, 500}" if quick else "{0, 64, 65, 500}",
+                    MaxSend=2)
     return [("MC_Datagram/code", PID + "/mc_code", MC_CODE, code), ("MC_Datagram/intended", PID + "/mc_intended", MC_INTENDED, intended)]
 
 
@@ -39,22 +39,22 @@ def gen_jobs(quick):
     g = lambda **k: dict({"Intended": "FALSE", "SendBase": "{0, 1, 70000}", "SendAround": "{0, 1, 2, 3, 4, 5}", "MaxPktG": MAXPKT, "LocalMaxes": "{}"}, **k)
     jobs = [
         # sender -> network -> receiver with localMax = peerMax around the 1/2-byte varint boundary (limit 66)
-        ("pair66", g(PeerMaxes="{66}", MaxPktG=100, Ops='{"send", "pack", "deliver", "read"}', Depth=3 if quick else 5), None),
+        ("pair66", g(PeerMaxes="{66}", MaxPktG=100, Ops='{"send", "pack", "deliver", "read"}', Depth=3 if quick else 4), None),
         # the whole path send -> pack -> deliver -> read, two datagrams deep, both varint lengths
         ("e2e", g(PeerMaxes="{66}", MaxPktG=100, SendBase="{0}", SendAround="{3}", Ops='{"send", "pack", "lose", "deliver", "read"}',
                   Depth=4 if quick else 6), None),
         # every limit class incl. 0 = disabled, tiny, the 2/4-byte varint boundary, the maximum; no injected frames
         ("limits", g(PeerMaxes="{0, 8, 16390}" if quick else "{0, 1, 8, 64, 1200, 16390, 65535}",
-                     Ops='{"send", "pack", "packfull", "lose", "deliver", "read", "connerr"}', Depth=3 if quick else 4), None),
+                     Ops='{"send", "pack", "packfull", "lose", "deliver", "read", "connerr"}', Depth=3), None),
         # receive side: frames built by the peer around our limit, both forms
         ("recv", g(PeerMaxes="{66}", LocalMaxes="{0, 66, 16390}" if quick else "{0, 1, 8, 66, 1200, 16390, 65535}",
                    Ops='{"inject", "read", "connerr"}', Depth=2 if quick else 3), None),
         # random deep walks over everything
         ("walks", g(PeerMaxes="{0, 8, 66, 1200, 16390, 65535}", Ops=ALL_OPS, Depth=14 if quick else 24),
-         {"num": 100 if quick else 4000, "depth": 40}),       # every last-step alternative is emitted: ~30 behaviours per walk
+         {"num": 100 if quick else 1500, "depth": 40}),       # every last-step alternative is emitted: ~30 behaviours per walk
         # random deep walks of an undisturbed connection (no injected frames, no connection error): deliveries and reads dominate
         ("walks_e2e", g(PeerMaxes="{8, 66, 1200, 16390, 65535}", SendAround="{0, 1, 2, 3, 4}", Ops='{"send", "pack", "packfull", "lose", "deliver", "read"}',
-                        Depth=14 if quick else 24), {"num": 150 if quick else 5000, "depth": 40}),
+                        Depth=14 if quick else 24), {"num": 150 if quick else 2000, "depth": 40}),
     ]
     return jobs
 
